@@ -13,9 +13,11 @@
     * `reg_gate_history` returns the register's wire (on every circuit satisfying DagInv);
     * `register_depth` — the un-memoised `_max_depth` recursion, with the fuel the model gives it — equals the ASAP
       layer of the last operation on each register, for every circuit built by `add`.
+    * `CircuitDepth` (networkx longest path − 1, under the recorded specification of `dag_longest_path_length`) equals
+      the largest ASAP layer, for every non-empty circuit built by `add`.
   Stated and kept as `def …_statement` (evaluated on every input of the correspondence run against the independent
-  op-list computation, not proved): depth (networkx longest path) = largest ASAP layer, unitary count, maximum emitter
-  depth, reset depth, effective depth (these go through `unwrap_nodes` on a copy).
+  op-list computation, not proved): unitary count, maximum emitter depth, reset depth, effective depth (these go
+  through `unwrap_nodes` / `remove_identity` on a copy).
 -/
 import GraphiqModel.Proofs.Depth
 namespace Graphiq.C18
@@ -130,12 +132,16 @@ theorem register_depth_eq_asap (ne np nc : Nat) (seq : List Op) (hseq : PlainSeq
 theorem max_depth_recursion_spec {c : Dag} {n : NodeId} {d : Int} (h : HasDepth c n d) (f : Nat) (hf : d + 2 ≤ (f : Int)) :
     c.maxDepth f n = .ok d := maxDepth_of_hasDepth h f hf
 
-/-! ## 4. the remaining metrics: full statements (not proved; compared on every correspondence input) -/
+/-- **`CircuitDepth` = the largest ASAP layer of the operation list** (the length of the longest dependency chain of
+    operations), for every non-empty circuit built by `add` from any plain operation list and every value `L` that meets
+    the recorded specification of `nx.dag_longest_path_length` (`L` edges on some directed walk, no walk has more);
+    `depth = L − 1`. -/
+theorem circuit_depth_eq_spec (ne np nc : Nat) (seq : List Op) (hseq : PlainSeq seq) (hok : (build ne np nc seq).2 = none)
+    (hne : (build ne np nc seq).1.nodeIds ≠ []) {L : Nat} (hL : LongestPathSpec (build ne np nc seq).1 L) :
+    Metrics.circuitDepthWith L = (Spec.depth seq : Int) :=
+  circuitDepth_eq_spec ne np nc seq hseq hok hne hL
 
-/-- depth (networkx longest path − 1) is the largest ASAP layer of the operation list -/
-def depth_eq_spec_statement : Prop :=
-  ∀ ne np nc seq, PlainSeq seq → (build ne np nc seq).2 = none → 0 < ne + np + nc →
-    Metrics.circuitDepth (build ne np nc seq).1 = (Spec.depth seq : Int)
+/-! ## 4. the remaining metrics: full statements (not proved; compared on every correspondence input) -/
 
 def unitary_count_eq_spec_statement : Prop :=
   ∀ ne np nc seq, PlainSeq seq → (build ne np nc seq).2 = none →
